@@ -41,6 +41,10 @@ SCOPES = {
     'stophandler': "try {{ !d1(it); }} stop {{ {A} {E} write('b'); }}",
     'undohandler': "try {{ !d1(it); }} undo {{ {A} {E} write('b'); }}",
     'preempt': "try {{ preempt {{ {A} {E} write('b'); }} !truth_is_defeat(it >= 0); }} undo {{ write('u'); }}",
+    # the allocation precedes a try in the same loop body; the exit route leaves through the try
+    'pretrystop': "{A} try {{ write('t'); {E} write('b'); }} stop {{ write('s'); }}",
+    'pretryundo': "{A} try {{ write('t'); {E} write('b'); }} undo {{ write('u'); }}",
+    'pretrynested': "{A} for (int w = 0; w < 2; w += 1) {{ int[] inner = [w, it]; try {{ {E} write(inner[0]); }} stop {{ write('s'); }} }}",
 }
 EXITS = {
     'fall': "",
@@ -68,7 +72,7 @@ def programs():
     for sk, stpl in SCOPES.items():
         for ak, a in ALLOCS.items():
             for ek, e in EXITS.items():
-                if ek in ('defeat', 'deepdefeat') and sk not in ('tryundo', 'trystop', 'preempt'):
+                if ek in ('defeat', 'deepdefeat') and sk not in ('tryundo', 'trystop', 'preempt', 'pretrystop', 'pretryundo', 'pretrynested'):
                     continue
                 if sk == 'preempt' and ek == 'deepdefeat':
                     continue
@@ -87,6 +91,7 @@ def programs():
 
 
 NS = ['1', '2', '3', '5']
+NS_QUICK = ['1', '3']
 
 
 def items(tier):
@@ -111,12 +116,12 @@ def run_item(item, tier):
     tag = f'X{list(key)}'
     st.count('family_items', key[0])
     Ws = [2, 4] if tier == 'thorough' else [(2, 4)[pi % 2]]
-    sweepable = key[0] not in ('tryundo', 'preempt', 'undohandler')      # speculation breaks the prefix oracle below S_min
+    sweepable = key[0] not in ('tryundo', 'preempt', 'undohandler', 'pretryundo')      # speculation breaks the prefix oracle below S_min
     for W in Ws:
         for x in (['2'] if tier == 'quick' else ['2', '0', '4']):
             if sweepable:
                 smins = {}
-                for n in NS:
+                for n in (NS if tier == 'thorough' else NS_QUICK):
                     smins[n] = stack_sweep(st, src, prog, [n, x], W, tag, above=2)
                     st.add('cases')
                 vals = set(v for v in smins.values() if v is not None)
@@ -126,8 +131,9 @@ def run_item(item, tier):
                 elif vals:
                     st.add('footprint_invariant')
             else:
-                run_program(st, src, [[n, x] for n in NS], [W], tag, prog=prog)
-                st.add('cases', len(NS))
+                ns = NS if tier == 'thorough' else NS_QUICK
+                run_program(st, src, [[n, x] for n in ns], [W], tag, prog=prog)
+                st.add('cases', len(ns))
     st.sample({'scope': key[0], 'allocation': key[1], 'exit': key[2], 'iterations': NS})
     return st
 
@@ -135,7 +141,7 @@ def run_item(item, tier):
 def coverage(total, tier):
     cov = std_coverage(total, {
         'X': f'{len(programs())} programs = scope kind {sorted(SCOPES)} + function scopes {sorted(FUNCS)} x allocation {sorted(ALLOCS)} x '
-             f'exit route {sorted(EXITS)} + return routes; iterations n in {NS}; VLA length x in ' + ('2' if tier == 'quick' else '2,0,4'),
+             f'exit route {sorted(EXITS)} + return routes; iterations n in ' + str(NS if tier == 'thorough' else NS_QUICK) + '; VLA length x in ' + ('2' if tier == 'quick' else '2,0,4'),
         'oracles': 'reference trace with canary arrays before/after and a fresh allocation after the loop; full stack sweep per n and '
                    'equality of S_min over n (not for scopes with speculation, where only trace + monitors apply); scope monitor',
         'word_sizes': '2,4' if tier == 'thorough' else 'alternating 2 / 4',
